@@ -235,6 +235,14 @@ def _orders(ctx):
     longbody = [('%d = E "lyric w%d"', '%d = E "section s %d"', '%d = E "free %d"', '%d = E "lyric \"q%d\""')[i % 4] % (2 * i, i) for i in range(1500)]
     check_e2e(ctx, longbody, "1500 lines", sync=("0 = TS 4", "0 = B 120000") + tuple("%d = B %d" % (100 * k, 60000 + k) for k in range(1, 25)))
     check_e2e(ctx, longbody[:700] + ["garbage"] + longbody[700:], "1501 lines, one of them a stray line")
+    # long sections whose kinds are NOT evenly mixed (a dispatcher that adapts to the frequencies it has seen):
+    # each kind in turn dominates the first 1030 / 2060 / 4100 lines, then all three kinds follow, quote-free
+    kinds3 = ('%d = E "free text %d"', '%d = E "section part %d"', '%d = E "lyric syl%d"')
+    for dom in range(3):
+        for n in (1030, 2060, 4100):
+            body = [kinds3[dom if i % 10 else (dom + 1 + i // 10 % 2) % 3] % (2 * i, i) for i in range(n)]
+            body += [kinds3[i % 3] % (2 * (n + i), i) for i in range(60)]
+            check_e2e(ctx, body, "%d lines dominated by kind %d, then 60 mixed lines" % (n, dom))
     # characters that text-level "clean-ups" like to strip: BOM / zero-width / no-break / ideographic blanks
     for sp in ("\ufeff", "\u200b", "\u00a0", "\u3000", "\U0001f3b8") + UNICODE_TRAPS + FORMAT_TRAPS:
         for tmpl in ("lyric a%sb", "lyric %s", "lyric%s x", "lyric %sx%s y", "section a%sb", "sec%stion x", "section%s", "a%sb", "%s", "x%s y"):
